@@ -109,6 +109,8 @@ def run_case(kind, p):
         frame = impl.noise_frame(rng, shape, p["frame_kind"])
     peaks = np.asarray(p["peaks"], dtype=np.int64)
     t = np.asarray(p["t"])
+    us = p.get("upsample", False)      # DFT upsampling of the refined positions on / off: the statement does not depend on it
+    ustag = f", upsample={us}" if us else ""
     # one frame buffer per frame shape, shared by all full-frame runs of this case (the documented way of using it)
     fbufs = {}
 
@@ -121,17 +123,17 @@ def run_case(kind, p):
     big2[6 + t[0]:6 + t[0] + shape[0], 6 + t[1]:6 + t[1] + shape[1]] = frame
     inner = peaks[np.all((peaks - c >= 0) & (peaks + c <= np.array(shape)), axis=1)]
     if len(inner):
-        a = impl.run_fast(big, pattern, inner + 6, b=p["b"])
-        b = impl.run_fast(big2, pattern, inner + 6 + t, b=p["b"])
+        a = impl.run_fast(big, pattern, inner + 6, b=p["b"], upsample=us)
+        b = impl.run_fast(big2, pattern, inner + 6 + t, b=p["b"], upsample=us)
         b = (b[0] - t, b[1] - t.astype(np.float32), b[2], b[3])
-        msgs += same(a, b, f"fast, translation {t.tolist()}", anchor_rounding=True)
+        msgs += same(a, b, f"fast, translation {t.tolist()}{ustag}", anchor_rounding=True)
     # --- cyclic roll, full frame ----------------------------------------------------------------
     rolled = np.roll(frame, tuple(t), axis=(0, 1))
     ok = np.all((peaks - c >= 0) & (peaks + c <= np.array(shape)) & (peaks + t - c >= 0)
                 & (peaks + t + c <= np.array(shape)), axis=1)
     if ok.any():
-        a = run_full(frame, pattern, peaks[ok], b=p["b"])
-        b = run_full(rolled, pattern, peaks[ok] + t, b=p["b"])
+        a = run_full(frame, pattern, peaks[ok], b=p["b"], upsample=us)
+        b = run_full(rolled, pattern, peaks[ok] + t, b=p["b"], upsample=us)
         b = (b[0] - t, b[1] - t.astype(np.float32), b[2], b[3])
         # a centre may differ between the two runs only where the maximum is tied within float32 rounding, judged on the
         # independent float64 reference map (no FFT); such entries are compared by this rule only
@@ -144,14 +146,14 @@ def run_case(kind, p):
             if np.all(rel >= 0) and np.all(rel < 2 * c) and m_[rel[0], rel[1]] >= m_.max() - 2e-4 * max(1.0, abs(m_.max())):
                 keep[j] = False
             else:
-                msgs.append(f"full, cyclic shift {t.tolist()}: centres differ {a[0][j].tolist()} vs {b[0][j].tolist()}")
+                msgs.append(f"full, cyclic shift {t.tolist()}{ustag}: centres differ {a[0][j].tolist()} vs {b[0][j].tolist()}")
         if keep.any():
             msgs += same(tuple(np.asarray(x)[keep] for x in a), tuple(np.asarray(x)[keep] for x in b),
-                         f"full, cyclic shift {t.tolist()}", exact=False)
+                         f"full, cyclic shift {t.tolist()}{ustag}", exact=False)
     # --- transposition -----------------------------------------------------------------------------
     for nm, runner in (("fast", impl.run_fast), ("full", run_full)):
-        a = runner(frame, pattern, peaks, b=p["b"])
-        b = runner(np.ascontiguousarray(frame.T), pattern, peaks[:, ::-1].copy(), b=p["b"])
+        a = runner(frame, pattern, peaks, b=p["b"], upsample=us)
+        b = runner(np.ascontiguousarray(frame.T), pattern, peaks[:, ::-1].copy(), b=p["b"], upsample=us)
         b = (b[0][:, ::-1], b[1][:, ::-1], b[2], b[3])
         clear = np.asarray(a[3]) > 1e-3            # a unique maximum (ties break in row-major order)
         # ... and unique beyond float32 rounding: where the two runs report different centres and the independent float64
@@ -165,10 +167,10 @@ def run_case(kind, p):
                 clear[j] = False
         if clear.any():
             msgs += same(tuple(np.asarray(x)[clear] for x in a), tuple(np.asarray(x)[clear] for x in b),
-                         f"{nm}, transposed", exact=False, tol=2e-4)
+                         f"{nm}, transposed{ustag}", exact=False, tol=2e-4)
             if not np.array_equal(a[0][clear], b[0][clear]):
                 i = int(np.argwhere(np.any(a[0][clear] != b[0][clear], axis=1))[0][0])
-                msgs.append(f"{nm}, transposed: centres differ {a[0][clear][i].tolist()} vs {b[0][clear][i].tolist()}")
+                msgs.append(f"{nm}, transposed{ustag}: centres differ {a[0][clear][i].tolist()} vs {b[0][clear][i].tolist()}")
     # --- offset --------------------------------------------------------------------------------------
     if p["frame_kind"] == "int":
         for nm, runner in (("fast", impl.run_fast), ("full", run_full)):
@@ -194,6 +196,42 @@ def run_case(kind, p):
     return msgs[:8]
 
 
+def classify(kind, p, msgs):
+    """known finding D15 seen through C14: with DFT upsampling on, the refined position is the maximiser of the modulus of the
+    *half-spectrum* sum (rfft along the last axis), which is not the correlation; transposing the frame makes the other axis
+    the half axis, so the upsampled refined positions of a frame and of its transpose are not mirror images.  Keyed to the
+    cause: only refined positions of the transposition clause differ, and in *both* orientations the implementation's result
+    is a maximiser of that half-spectrum objective, recomputed in float64 from its definition (refimpl)."""
+    us = p.get("upsample", False)
+    if not us or not msgs or not all(", transposed, upsample=" in m and ": refineds differ" in m for m in msgs):
+        return None
+    import refimpl
+    us = 20 if us is True else int(us)
+    rng = np.random.default_rng(p["seed"])
+    pattern = impl.pattern_from(p["pattern"])
+    c = pattern.get_crop_size()
+    shape = tuple(p["shape"])
+    frame = rng.poisson(30, shape).astype(np.float32) if p["frame_kind"] == "int" else impl.noise_frame(rng, shape, p["frame_kind"])
+    peaks = np.asarray(p["peaks"], dtype=np.int64)
+    for fr, pk in ((frame, peaks), (np.ascontiguousarray(frame.T), peaks[:, ::-1].copy())):
+        f64 = fr.astype(np.float64)
+        for nm, runner in (("fast", impl.run_fast), ("full", impl.run_full)):
+            if not any(m.startswith(nm + ",") for m in msgs):
+                continue
+            out = runner(fr, pattern, pk, b=p["b"], upsample=us)
+            for j, q in enumerate(pk):
+                if nm == "full":
+                    mask, data = pattern.get_mask(fr.shape), np.log(f64 - f64.min() + 1)
+                    cen, ref = out[0][j], out[1][j]
+                else:
+                    win = refimpl.window(f64, c, q)
+                    mask, data = pattern.get_mask((2 * c, 2 * c)), np.log(win - win.min() + 1)
+                    cen, ref = out[0][j] - q + c, out[1][j] - q + c
+                if not refimpl.is_half_spectrum_maximiser(mask, data, np.asarray(cen, dtype=float), us, np.asarray(ref, dtype=float)):
+                    return None
+    return "D15"
+
+
 def search(ctx, boost=1, focus=()):
     rng = np.random.default_rng(ctx.seed + 1014)
     n = (160 if ctx.tier == "thorough" else 32) * boost
@@ -210,7 +248,8 @@ def search(ctx, boost=1, focus=()):
         p = {"seed": int(rng.integers(1 << 30)), "pattern": pat, "shape": shape,
              "frame_kind": ("int", "gauss", "disks", "int")[k % 4], "peaks": peaks.tolist(),
              "t": [int(rng.integers(-5, 6)), int(rng.integers(-5, 6))], "b": int(rng.integers(1, npk + 2)),
-             "offset": int(rng.integers(1, 10001))}
-        ctx.oracle_case("relations", p, run_case("relations", p),
+             "offset": int(rng.integers(1, 10001)), "upsample": (False, False, 20, False, int(rng.integers(2, 51)), True)[(k // 4) % 6]}
+        msgs_ = run_case("relations", p)
+        ctx.oracle_case("relations", p, msgs_, key=classify("relations", p, msgs_) if msgs_ else None,
                         nontrivial=(shape[0] != shape[1] or (p["t"][0] != 0 and p["t"][1] != 0)))
         ctx.count("oracle_" + p["frame_kind"])
